@@ -202,8 +202,10 @@ def shrink(prop, bad, deadline):
 
 
 def write_replay(pid, seed, n, kind, bad, broken=None):
-    os.makedirs(os.path.join(core.VERIF, "replays"), exist_ok=True)
-    rel = os.path.join("replays", f"{pid}-{seed}-{n}.json")
+    # runs against another tree (seeded mutants) keep their replays apart from those about /repo
+    rdir = "replays" if os.path.realpath(core.REPO) == os.path.realpath("/repo") else "replays_scratch"
+    os.makedirs(os.path.join(core.VERIF, rdir), exist_ok=True)
+    rel = os.path.join(rdir, f"{pid}-{seed}-{n}.json")
     with open(os.path.join(core.VERIF, rel), "w") as fh:
         json.dump({"property": pid, "kind": kind, "case": _strip(bad["case"]), "impl_output": bad["impl"],
                    "model_output": bad["model"], "agree": bad["agree"], "holds": bad["holds"], "why": bad["why"],
